@@ -37,7 +37,7 @@ func Open(filename string) (*Reader, error) {
 
 // OpenReader parses HTML from an io.Reader.
 func OpenReader(r io.Reader) (*Reader, error) {
-	doc, err := html.Parse(r)
+	doc, err := ParseBounded(r)
 	if err != nil {
 		return nil, fmt.Errorf("parsing HTML: %w", err)
 	}
